@@ -341,6 +341,58 @@ func c13Trip(baseName string) Harness {
 		if len(t.StopTimeUpdates) >= 2 {
 			c.Witness("trip_with_2+_updates")
 		}
+		// the same OBJECT changed in place and hashed again: the hash must follow the data, not
+		// the object (identifier and number of updates unchanged, so nothing "looks" different)
+		if m := c.Choose("mutate_in_place_and_rehash", 5); m > 0 {
+			mutated := false
+			// hash this very object last, so that nothing else was hashed between the two hashes of it
+			if pan, _, _, _ := guard(func() { _ = tripStream(t) }); pan {
+				return
+			}
+			if n := len(t.StopTimeUpdates); n > 0 {
+				u := &t.StopTimeUpdates[(m-1)%n]
+				switch m {
+				case 1:
+					d := 77 * time.Second
+					if u.Arrival == nil {
+						u.Arrival = &gtfs.StopTimeEvent{}
+					}
+					u.Arrival.Delay = &d
+				case 2:
+					s := "changed-stop"
+					u.StopID = &s
+				case 3:
+					s := "changed-track"
+					u.NyctTrack = &s
+				case 4:
+					u.Departure = nil
+					v := uint32(4242)
+					u.StopSequence = &v
+				}
+				mutated = true
+			}
+			if mutated {
+				var again, fresh string
+				pan, where, text, stack := guard(func() {
+					again = tripStream(t)
+					fresh = tripStream(cloneTrip(t, nil))
+				})
+				if pan {
+					c.Fail("panic:"+where+":"+text, "Trip.Hash panicked: %s\n%s", text, stack)
+					return
+				}
+				if again != fresh {
+					c.Fail("trip-hash-depends-on:object-identity-after-in-place-change", "a trip changed in place hashes differently from an equal freshly built trip: %s", tripKey(t))
+				}
+				if again == stream && tripKey(t) != key {
+					c.Fail("trip-hash-depends-on:object-identity-after-in-place-change", "a trip changed in place (%s -> %s) kept its hash input", key, tripKey(t))
+				}
+				k2 := tripKey(t)
+				c.Relate("trip:stream->data", again, k2)
+				c.Relate("trip:data->stream", k2, again)
+				c.Witness("rehashed_after_in_place_change")
+			}
+		}
 	}
 }
 
